@@ -54,6 +54,7 @@ type specEnv struct {
 	depth    int
 
 	atInstr         bool
+	calleeGhosts    []GhostDecl
 	inOld           bool
 	onlyGhostLocals bool
 	top             *State // the live state: function-level ghosts are locals and are not affected by old()
@@ -921,6 +922,26 @@ func (env *specEnv) call(x *SCall) SV {
 		name, _ := strconv.Unquote(lit.Val)
 		id := e.W.typeIDByName(name)
 		return SV{T: tEq(sx("i-typ", v.T), tInt(int64(id))), Sort: "Bool"}
+	case "zero":
+		// zero(e): the zero value of e's static type
+		v := arg(0)
+		if v.GT != nil {
+			return SV{T: e.zeroOf(v.GT), Sort: v.Sort, GT: v.GT}
+		}
+		switch v.Sort {
+		case "Int":
+			return SV{T: "0", Sort: "Int"}
+		case "Bool":
+			return SV{T: tFalse, Sort: "Bool"}
+		case "TP":
+			e.declare("zero-TP", "TP")
+			return SV{T: "zero-TP", Sort: "TP"}
+		case "Iface":
+			return SV{T: "(mk-iface 0 0)", Sort: "Iface"}
+		case "Slice":
+			return SV{T: "(mk-slice 0 0 0 0)", Sort: "Slice"}
+		}
+		env.fail("zero(): unknown sort %s", v.Sort)
 	case "fieldmap":
 		// fieldmap(x.f): the whole map "object reference -> value of field f" (for spec functions over linked structures)
 		hn, hs := env.fieldHeapOf(x.Args[0])
@@ -1252,7 +1273,7 @@ func (env *specEnv) derefLoc(x *SCall) *Loc {
 func (env *specEnv) tryEvalBool(x SExpr, anyError bool) (t Term, ok bool) {
 	defer func() {
 		if r := recover(); r != nil {
-			if ee, isEnc := r.(encErr); isEnc && (anyError || strings.Contains(string(ee), "unknown identifier")) {
+			if ee, isEnc := r.(encErr); isEnc && (anyError || env.isCalleeGhostError(string(ee))) {
 				t, ok = "", false
 				return
 			}
@@ -1315,4 +1336,18 @@ func (env *specEnv) fieldHeapOf(x SExpr) (name, sort string) {
 	}
 	env.fail("fieldmap: no field %s", sel.Sel)
 	return "", ""
+}
+
+// isCalleeGhostError: the evaluation failed only because the clause names a function-level ghost of the callee
+// (invisible to callers). Any other unknown identifier (a typo in an assumed contract!) stays a hard error.
+func (env *specEnv) isCalleeGhostError(msg string) bool {
+	if !strings.Contains(msg, "unknown identifier") {
+		return false
+	}
+	for _, g := range env.calleeGhosts {
+		if strings.Contains(msg, fmt.Sprintf("unknown identifier %q", g.Name)) {
+			return true
+		}
+	}
+	return false
 }
